@@ -168,6 +168,9 @@ def rule_r4(ctx):
     f, g = _parse_header(ctx)
     store = [n for n in g.nodes if n.kind == "stmt" and isinstance(n.ast, ast.Assign) and any(dotted(t) == "self.chunked" for t in n.ast.targets)
              and isinstance(n.ast.value, ast.Constant) and n.ast.value.value is True]
+    if not store:
+        ctx.r.violation(rid, key_of(f, None, "chunked-never-selected"), "parse_header never selects chunked decoding: a Transfer-Encoding: chunked body is framed by something else", f.loc())
+        return
     if len(store) != 1:
         raise AnalysisError("expected exactly one `self.chunked = True` store, found %d" % len(store))
     s = store[0]
@@ -366,7 +369,8 @@ def rule_r8(ctx):
         if any(isinstance(x, ast.Constant) and x.value == "TRANSFER_ENCODING" for x in ast.walk(n.ast)):
             te_nodes.append(n)
     if not te_nodes:
-        raise AnalysisError("parse_header never looks at TRANSFER_ENCODING")
+        ctx.r.violation(rid, key_of(f, None, "te-ignored"), "parse_header never looks at the Transfer-Encoding field: every transfer coding is silently ignored", f.loc())
+        return
     only11 = [n for n in te_nodes if any(pol and isinstance(t, ast.Compare) and norm(t).replace('"', "'") == "version == '1.1'" for (t, pol) in guards_of(g, n))]
     other = [n for n in te_nodes if n not in only11]
     ok = False
